@@ -184,7 +184,7 @@ func (r *c04Runner) apply(op drv.Op) (crashed bool, err error) {
 }
 
 func c04Snapshot(w *drv.World) (*Snapshot, error) {
-	s, err := TakeSnapshot(w, SnapOpts{})
+	s, err := TakeSnapshot(w, SnapOpts{BranchHeads: true})
 	if err != nil {
 		return nil, err
 	}
